@@ -7,6 +7,7 @@ package harness
 
 import (
 	"fmt"
+	"github.com/gammazero/nexus/v3/transport/serialize"
 	"runtime"
 	"sort"
 	"strconv"
@@ -50,10 +51,10 @@ func (l *ringLog) Tail() []string {
 // ---- sessions ---------------------------------------------------------
 
 type idRec struct {
-	ID   wamp.ID
-	Req  wamp.ID // request that created it (subscribe/register) or registration (invocation)
-	URI  string
-	Aux  string
+	ID  wamp.ID
+	Req wamp.ID // request that created it (subscribe/register) or registration (invocation)
+	URI string
+	Aux string
 }
 
 type sentRec struct {
@@ -95,22 +96,22 @@ type SimSess struct {
 	Calls []idRec
 	Invs  []idRec
 
-	All []wamp.Message // everything received, in order
+	All           []wamp.Message // everything received, in order
 	LastChallenge *wamp.Challenge
 	HelloAuthID   string
 	unsubByReq    map[wamp.ID]wamp.ID // request id -> subscription id of UNSUBSCRIBE messages queued
 	unregByReq    map[wamp.ID]wamp.ID
 
-	outq     chan sentRec
-	Queued   int // messages handed to the sender goroutine
-	Delivered int // messages the router side accepted
-	queuedAt []time.Duration // virtual times at which the still undelivered messages were queued
-	quit     chan struct{}
-	quitOnce sync.Once
-	mu       sync.Mutex
-	deliv    []sentRec // delivered but not yet collected into a step
-	pendReq  map[wamp.ID]Op // request id -> op (subscribe/register) awaiting its reply
-	senderWG sync.WaitGroup
+	outq      chan sentRec
+	Queued    int             // messages handed to the sender goroutine
+	Delivered int             // messages the router side accepted
+	queuedAt  []time.Duration // virtual times at which the still undelivered messages were queued
+	quit      chan struct{}
+	quitOnce  sync.Once
+	mu        sync.Mutex
+	deliv     []sentRec      // delivered but not yet collected into a step
+	pendReq   map[wamp.ID]Op // request id -> op (subscribe/register) awaiting its reply
+	senderWG  sync.WaitGroup
 }
 
 func (s *SimSess) NextReq() wamp.ID { s.nextReq++; return s.nextReq }
@@ -143,9 +144,9 @@ func (s *SimSess) stopSender() {
 // ---- steps ---------------------------------------------------------------
 
 type StepRec struct {
-	N      int // step number
-	Phase  string // "join" "op" "settle" "drop" "close"
-	OpIdx  []int  // indices into Case.Ops executed (queued) in this step
+	N      int       // step number
+	Phase  string    // "join" "op" "settle" "drop" "close"
+	OpIdx  []int     // indices into Case.Ops executed (queued) in this step
 	Sent   []sentRec // messages the router accepted during this step, per-session order preserved
 	Recv   map[int][]wamp.Message
 	Closed []int // sessions whose inbound side was found closed in this step
@@ -194,32 +195,36 @@ func (b *baseOracle) Stats() CaseStats                    { return b.st }
 // ---- engine ---------------------------------------------------------------
 
 type Engine struct {
+	// wsSer: one serializer instance per websocket subprotocol, shared by every
+	// websocket session of the router - as router.WebsocketServer does
+	wsSer   map[string]serialize.Serializer
+	wsSerMu sync.Mutex
 	// Realtime: the engine runs outside a synctest bubble on the real clock
 	// (confirmation of a real-time hang, see realtime.go); quiescence is then
 	// approximated by polling.
-	Realtime bool
-	C      *Case
-	R      router.Router
-	Log    *ringLog
-	Sess   []*SimSess
-	Steps  []*StepRec
-	T0     time.Time
-	Pubs   []wamp.ID // publication ids seen in PUBLISHED, in order
+	Realtime     bool
+	C            *Case
+	R            router.Router
+	Log          *ringLog
+	Sess         []*SimSess
+	Steps        []*StepRec
+	T0           time.Time
+	Pubs         []wamp.ID // publication ids seen in PUBLISHED, in order
 	RouterClosed bool
 	// hooks for property-specific op kinds
 	Custom func(e *Engine, op *Op, idx int) bool
 	// extra realm configuration
 	TweakRealm func(rc *router.RealmConfig, cfg *RealmCfg)
 	authzStats *authzStats
-	Trace []string // human readable log for replay output
-	KeepTrace bool
+	Trace      []string // human readable log for replay output
+	KeepTrace  bool
 	// Nudge: after every step let 2 virtual minutes pass, so that no result-retry
 	// sleeper survives into the next step (used when sessions have tiny queues).
-	Nudge    bool
-	Baseline map[wamp.URI]router.VerifSizes // H1 snapshot right after start
-	AuthSeen map[string][]string            // authid|method -> correct responses computed so far (for replays)
-	CloseDone  chan struct{}                // closed when a router_close op's Router.Close() has returned
-	RemoveDone []chan struct{}              // one per remove_realm op
+	Nudge      bool
+	Baseline   map[wamp.URI]router.VerifSizes // H1 snapshot right after start
+	AuthSeen   map[string][]string            // authid|method -> correct responses computed so far (for replays)
+	CloseDone  chan struct{}                  // closed when a router_close op's Router.Close() has returned
+	RemoveDone []chan struct{}                // one per remove_realm op
 }
 
 func NewEngine(c *Case) *Engine {
@@ -1064,4 +1069,20 @@ func (e *Engine) traceStep(st *StepRec) {
 	for _, n := range st.Notes {
 		e.Trace = append(e.Trace, "  note: "+n)
 	}
+}
+
+// serverSerializer returns the router-side serializer for a websocket
+// subprotocol: one instance shared by all websocket sessions.
+func (e *Engine) serverSerializer(name string) serialize.Serializer {
+	e.wsSerMu.Lock()
+	defer e.wsSerMu.Unlock()
+	if e.wsSer == nil {
+		e.wsSer = map[string]serialize.Serializer{}
+	}
+	if s, ok := e.wsSer[name]; ok {
+		return s
+	}
+	s := serializerFor(name)
+	e.wsSer[name] = s
+	return s
 }
